@@ -35,6 +35,7 @@ type Config struct {
 	Tier      int  // 0 quick, 1 thorough (returned by vxTier())
 	Preempt   int  // pre-emption budget (mode X); 0 = run-to-block
 	PermuteMaps bool
+	SymbolicChoices bool // harness/scheduler choices are symbolic variables enumerated by the solver
 	SelectFork  bool // fork over the ready cases of a select (otherwise: first ready case in source order)
 	Known     map[string]bool // known-finding ids that may be excused
 	Deadline  time.Time
@@ -498,8 +499,12 @@ func (e *Explorer) runPath(sol *smt.Solver, spec *PathSpec) (*PathResult, []*Pat
 	// final model: the current model satisfies the PC; pad to all symbols
 	m := make([]uint64, len(i.ctx.Syms))
 	ev := smt.NewEvaluator(i.model)
+	m = m[:0]
 	for n, s := range i.ctx.Syms {
-		m[n] = ev.Eval(s)
+		if strings.HasPrefix(i.ctx.Names[n], "choice#") {
+			continue // choice variables are replayed through the decision vector
+		}
+		m = append(m, ev.Eval(s))
 		res.SymNames = append(res.SymNames, i.ctx.Names[n])
 		res.SymWidth = append(res.SymWidth, s.W)
 	}
